@@ -26,7 +26,7 @@ ASSUMPTIONS = ['A trade is a winner iff its net PnL > 0, a loser iff < 0; break-
                'relative tolerance 1e-9 (ratios 1e-7)']
 MIN_OBS = {'A_lists': 1500, 'A_degenerate_lists': 200, 'B_series': 400, 'C_sessions': 40, 'C_samples_compared': 120,
            'C_spot_two_route_sessions': 10, 'C_samples_with_open_position': 30,
-           'C_market_orders_submitted_on_a_midnight_bar': 10}
+           'C_market_orders_submitted_on_a_midnight_bar': 10, 'A_lists_with_overlapping_trades': 200}
 
 
 def close(a, b, tol=1e-9):
@@ -55,6 +55,9 @@ def _part_a(job):
             klass = rng.choice(['mixed', 'mixed', 'mixed', 'all_win', 'all_loss', 'break_even', 'single', 'big', 'be_mix'])
             n = {'single': 1, 'big': rng.choice([2000, 5000])}.get(klass, rng.randint(2, 60))
             trades, ref = [], []
+            overlapping = rng.random() < 0.3
+            if overlapping:
+                cnt['A_lists_with_overlapping_trades'] = cnt.get('A_lists_with_overlapping_trades', 0) + 1
             for i in range(n):
                 typ = rng.choice(['long', 'short'])
                 qty = round(rng.uniform(0.01, 5), 3)
@@ -75,6 +78,11 @@ def _part_a(job):
                 t.strategy_name, t.symbol, t.exchange, t.type, t.timeframe = 'S', 'BTC-USDT', direct.EXCHANGE, typ, '1m'
                 t.opened_at = gen.T0 + i * 600000
                 t.closed_at = t.opened_at + rng.randint(1, 9) * 60000
+                if overlapping:
+                    # trades of several routes overlap: the list is in CLOSING order (what the session produces), the opening
+                    # times are not
+                    t.closed_at = gen.T0 + i * 600000 + 540000
+                    t.opened_at = t.closed_at - rng.randint(1, 40) * 600000
                 t.leverage = 2
                 # two entry fills, one exit fill
                 q1 = round(qty / 2, 4)
